@@ -19,30 +19,34 @@ import (
 	"strings"
 	"sync"
 	"time"
+
+	"github.com/martian-lang/martian/martian/core"
 )
 
 // TASpec is one pipestance run, serialisable.
 type TASpec struct {
-	Index         int      `json:"index"`
-	Name          string   `json:"name"`
-	Src           string   `json:"src"`
-	Seed          int64    `json:"seed"`
-	VdrMode       string   `json:"vdr"`
-	MroPaths      []string `json:"mropaths,omitempty"`
-	CrashAt       []int    `json:"crash_at,omitempty"`
-	CrashSurvive  float64  `json:"crash_survive"`
-	Faults        []*Fault `json:"faults,omitempty"`
-	InlineFinish  float64  `json:"inline_finish"`
-	StartSeparate float64  `json:"start_separate"`
-	StepBias      float64  `json:"step_bias"`
-	Adversarial   bool     `json:"adversarial"`
-	ExtraFiles    bool     `json:"extra_files"`
-	FullReset     bool     `json:"full_reset"`
-	WantTree      bool     `json:"want_tree"`
-	WantEvents    bool     `json:"want_events"`
-	WantTrace     bool     `json:"want_trace"`
-	CheckArgFiles bool     `json:"check_arg_files"`
-	TimeoutS      int      `json:"timeout_s"`
+	Index            int      `json:"index"`
+	Name             string   `json:"name"`
+	Src              string   `json:"src"`
+	Seed             int64    `json:"seed"`
+	VdrMode          string   `json:"vdr"`
+	MroPaths         []string `json:"mropaths,omitempty"`
+	CrashAt          []int    `json:"crash_at,omitempty"`
+	CrashSurvive     float64  `json:"crash_survive"`
+	Faults           []*Fault `json:"faults,omitempty"`
+	InlineFinish     float64  `json:"inline_finish"`
+	StartSeparate    float64  `json:"start_separate"`
+	StepBias         float64  `json:"step_bias"`
+	Adversarial      bool     `json:"adversarial"`
+	ExtraFiles       bool     `json:"extra_files"`
+	FullReset        bool     `json:"full_reset"`
+	WantTree         bool     `json:"want_tree"`
+	WantEvents       bool     `json:"want_events"`
+	WantTrace        bool     `json:"want_trace"`
+	CheckArgFiles    bool     `json:"check_arg_files"`
+	WantNodes        bool     `json:"want_nodes"`
+	RestartAfterFail bool     `json:"restart_after_fail"`
+	TimeoutS         int      `json:"timeout_s"`
 }
 
 type TreeEntry struct {
@@ -72,6 +76,8 @@ type TAResult struct {
 	Crashed  bool                 `json:"crashed,omitempty"` // worker process died while running this spec
 	NEvents  int                  `json:"n_events"`
 	Incs     int                  `json:"incs"`
+	Nodes    []core.VerifNodeView `json:"nodes,omitempty"`
+	FailMsgs []string             `json:"fail_msgs,omitempty"` // error text of each failed incarnation
 }
 
 func (f *Fault) MarshalJSON() ([]byte, error) {
@@ -153,7 +159,7 @@ func runSpec(spec *TASpec, scratch string) *TAResult {
 	opts := TAOpts{VdrMode: spec.VdrMode, MroPaths: spec.MroPaths, CrashSurvive: spec.CrashSurvive,
 		Faults: spec.Faults, InlineFinish: spec.InlineFinish, StartSeparate: spec.StartSeparate,
 		StepBias: spec.StepBias, Adversarial: spec.Adversarial, ExtraFiles: spec.ExtraFiles,
-		FullReset: spec.FullReset}
+		FullReset: spec.FullReset, RestartAfterFail: spec.RestartAfterFail}
 	if len(spec.CrashAt) > 0 {
 		opts.CrashAt = map[int]bool{}
 		for _, c := range spec.CrashAt {
@@ -204,6 +210,13 @@ func runSpec(spec *TASpec, scratch string) *TAResult {
 		res.Trace = run.Tracer.Lines
 	}
 	res.Launches = run.Launches
+	res.FailMsgs = run.FailMsgs
+	if spec.WantNodes && run.ps != nil && run.Final != "hang" && !strings.HasPrefix(run.Final, "panic") {
+		func() {
+			defer func() { recover() }()
+			res.Nodes = run.ps.VerifNodes()
+		}()
+	}
 	if outs, err := run.TopOuts(); err == nil {
 		res.TopOuts = outs
 	}
